@@ -121,11 +121,25 @@ def make_params(cfg, spec=None, weights=None, **extra):
         kw["scaling_primal"] = np.array(x0, dtype=float, copy=True)
         kw["scaling_dual"] = (np.array(spec.y0, dtype=float, copy=True) if spec.y0 is not None
                               else np.zeros(spec.m))
-    for k in ("rho", "iteration_limit", "time_limit", "lamb_init", "lamb_max", "lamb_min", "report_rcond",
-              "collect_path", "display_interval", "obj_lower_limit", "opt_tol", "deriv_check", "validate_input",
-              "newton_tol", "theta_max", "lamb_red", "lamb_inc"):
+    import dataclasses
+
+    from pygradflow.params import Params as _P
+
+    plain = {f.name for f in dataclasses.fields(_P)} - {
+        "newton_type", "step_solver_type", "linear_solver_type", "step_control_type", "penalty_update",
+        "active_set_type", "active_set_tau", "scaling_type", "scaling", "scaling_primal", "scaling_dual",
+        "precision", "active_set_method", "step_solver"}
+    for k in plain:
         if k in c:
             kw[k] = c[k]
+    if c.get("active_set_method") == "half" and c["active"] != "Explicit":
+        # user-supplied rule for the active-set estimate (called as method(iterate, lamb, rho))
+        kw["active_set_method"] = lambda iterate, lamb, rho: 0.5
+    if c.get("step_solver_callable"):
+        import pygradflow.step.solver as SS
+
+        kw["step_solver"] = {"Standard": SS.StandardStepSolver, "Extended": SS.ExtendedStepSolver,
+                             "Symmetric": SS.SymmetricStepSolver, "Asymmetric": SS.AsymmetricStepSolver}[c["step_solver"]]
     kw.update(extra)
     return Params(**kw)
 
@@ -138,3 +152,35 @@ def ref_weights(params, n, m):
     if sc is None:
         return Weights.zero(n, m)
     return Weights(np.asarray(sc.var_weights), np.asarray(sc.cons_weights), int(sc.obj_weight))
+
+
+def rare_params(rng, allow_unvalidated=True):
+    """A random subset of the rarely touched numerical parameters (JSON data)."""
+    out = {}
+    if rng.random() < 0.4:
+        out["lamb_min"] = float(10.0 ** rng.uniform(-12, -2))
+    if rng.random() < 0.4:
+        out["lamb_red"] = float(rng.uniform(0.1, 0.9))
+    if rng.random() < 0.4:
+        out["lamb_inc"] = float(rng.uniform(1.5, 10.0))
+    if rng.random() < 0.4:
+        out["theta_max"] = float(rng.uniform(0.5, 0.99))
+        out["theta_ref"] = float(rng.uniform(0.1, out["theta_max"]))
+    if rng.random() < 0.3:
+        out["K_P"] = float(rng.uniform(0.0, 1.0))
+        out["K_I"] = float(rng.uniform(0.0, 0.1))
+    if rng.random() < 0.3:
+        out["opt_tol"] = float(rng.choice([1e-4, 1e-6, 1e-8]))
+    if rng.random() < 0.3:
+        out["newton_tol"] = float(rng.choice([1e-6, 1e-8, 1e-10]))
+    if rng.random() < 0.2:
+        out["active_tol"] = float(rng.choice([1e-8, 1e-6]))
+    if rng.random() < 0.2:
+        out["local_infeas_tol"] = float(rng.choice([1e-8, 1e-6]))
+    if allow_unvalidated and rng.random() < 0.2:
+        out["validate_input"] = False
+    if rng.random() < 0.15:
+        out["active_set_method"] = "half"
+    if rng.random() < 0.15:
+        out["step_solver_callable"] = True
+    return out
